@@ -37,6 +37,10 @@ type Knobs struct {
 	Indexing        bool   `json:"indexing"`
 	RawKeys         bool   `json:"raw_keys"`
 	Checkpoint      uint32 `json:"full_value_checkpoint"`
+	// ValueScale > 1 inflates Batch.ValueSize() (documented as approximate), so that
+	// code which writes a batch out "once it exceeds ethdb.IdealBatchSize" does so
+	// with the tiny states of the simulation.
+	ValueScale int `json:"value_size_scale,omitempty"`
 }
 
 func genKnobs(r *simcore.Rand) Knobs {
@@ -240,6 +244,9 @@ func newWorld(k Knobs, record bool) *world {
 	}
 	w := &world{k: k, root: root, clock: &simdisk.Clock{}}
 	w.kv = simdisk.NewSimKV(w.clock)
+	if k.ValueScale > 1 {
+		w.kv.ValueSizeScale = k.ValueScale
+	}
 	if record {
 		w.rec = simos.NewRecorder(root)
 		w.rec.NextSeq = w.clock.Next
@@ -253,6 +260,9 @@ func newWorld(k Knobs, record bool) *world {
 // worldOn builds a world on an existing KV image and scratch root (crash reboot).
 func worldOn(k Knobs, root string, kv *simdisk.SimKV) *world {
 	w := &world{k: k, root: root, clock: kv.Clock, kv: kv}
+	if k.ValueScale > 1 {
+		kv.ValueSizeScale = k.ValueScale
+	}
 	simos.ResetLocks()
 	simos.Install(nil)
 	w.oldMaxDiff = pathdb.VerifSetMaxDiffLayers(k.MaxDiff)
